@@ -46,6 +46,12 @@ def gen_cases(tier, seed):
         cfg = workloads.gen_cfg(rng, pspec, pool=pool, n_batch=nb, networks=[0, 0, 1, 0, 2, 0][i % 6])
         if nb <= 3:
             cfg.update(f_live=0.2, n_eff=100, n_live=30, n_networks=min(cfg['n_networks'], 1))
+        if i % 10 == 9:
+            # one update per bound with blobs: empty shells are removed at the end of exploration and the blob arrays
+            # have to be renumbered together with points and log_l
+            pspec['blobs'] = workloads.BLOBS[1 + (i // 10) % (len(workloads.BLOBS) - 1)]
+            cfg.update(n_update=1, n_live=10, n_batch=int(rng.choice([1, 2])), f_live=1e-3, n_networks=0, n_eff=40,
+                       n_shell=1, n_like_new_bound=None, n_points_min=None, enlarge_per_dim=2.0, pool='none')
         hist = drive.gen_history(rng, cfg, kind='plain')
         cases.append({'i': i, 'seed': seed, 'prob': pspec, 'cfg': cfg, 'hist': hist})
     return cases
